@@ -112,7 +112,7 @@ def render_state(gw: Gateway) -> str:
             children.append(f"{ck}/{c.child_id}/{c.child_type}/{enc(c.description)}/{{{vals}}}")
         nodes.append(f"{k}:{n.node_type}:{enc(n.protocol_version)}:{enc(n.sketch_name)}:{enc(n.sketch_version)}:"
                      f"{n.battery_level}:{n.heartbeat}:{b(n.reboot)}:{b(n.sleeping)}:[{';'.join(children)}]")
-    buf = gw._message_buffer
+    buf = lib.sleep_buffer(gw)
     pv = "pv=none" if gw.protocol_version is None else "pv=" + enc(gw.protocol_version)
     ib = " ".join(f"{k[0]}.{k[1]}.{k[2]}" for k in buf.internal_messages)
     sb = " ".join(f"{k[0]}.{k[1]}.{k[2]}={enc(m.payload)}" for k, m in buf.set_messages.items())
@@ -186,8 +186,8 @@ async def _run_impl(h: Hist):
     listener = None
     obs = [{"out": "init", "writes": [], "state": render_state(gw), "nodes": snapshot_nodes(gw),
             "pv": gw.protocol_version, "proto": gw.protocol.VERSION,
-            "sbuf": [(k, m.payload) for k, m in gw._message_buffer.set_messages.items()],
-            "ibuf": list(gw._message_buffer.internal_messages)}]
+            "sbuf": [(k, m.payload) for k, m in lib.sleep_buffer(gw).set_messages.items()],
+            "ibuf": list(lib.sleep_buffer(gw).internal_messages)}]
     for op in h.ops:
         tr.attempts = []
         if op[0] == "recv":
@@ -226,8 +226,8 @@ async def _run_impl(h: Hist):
                 out = render_exc(e)
         obs.append({"out": out, "writes": list(tr.attempts), "state": render_state(gw), "nodes": snapshot_nodes(gw),
                     "pv": gw.protocol_version, "proto": gw.protocol.VERSION,
-                    "sbuf": [(k, m.payload) for k, m in gw._message_buffer.set_messages.items()],
-                    "ibuf": list(gw._message_buffer.internal_messages)})
+                    "sbuf": [(k, m.payload) for k, m in lib.sleep_buffer(gw).set_messages.items()],
+                    "ibuf": list(lib.sleep_buffer(gw).internal_messages)})
     if listener is not None:
         await listener.aclose()
     return obs
